@@ -217,6 +217,44 @@ def rxn_text(r):
     return '%s -> %s; %s' % (side('reac', 'inact_reac'), side('prod', 'inact_prod'), fmt_k(_fr(r['param'])))
 
 
+CONC_UNITS = ['molar', 'millimolar', 'micromolar', 'mol/m3', 'mol/dm3', 'umol/cm3']
+TIME_UNITS = ['second', 'minute', 'millisecond', 'hour']
+
+
+def unit_of(name):
+    from chempy.units import default_units as u
+    return {'molar': u.molar, 'millimolar': u.millimolar, 'micromolar': u.micromolar, 'mol/m3': u.mol / u.metre ** 3,
+            'mol/dm3': u.mol / u.decimetre ** 3, 'umol/cm3': u.micromole / u.centimetre ** 3,
+            'second': u.second, 'minute': u.minute, 'millisecond': u.millisecond, 'hour': u.hour}[name]
+
+
+def unit_factor(name):
+    """size of the unit in molar resp. seconds (the harness computes in molar and seconds)"""
+    return {'molar': 1.0, 'millimolar': 1e-3, 'micromolar': 1e-6, 'mol/m3': 1e-3, 'mol/dm3': 1.0, 'umol/cm3': 1e-3,
+            'second': 1.0, 'minute': 60.0, 'millisecond': 1e-3, 'hour': 3600.0}[name]
+
+
+def rxn_text_units(r, cu, tu):
+    """the reaction line with a unit-carrying rate constant: k in (cu)^(1-order)/(tu), same physical value"""
+    order = sum(n for _, n in r['reac'])
+    k = float(_fr(r['param'])) * unit_factor(tu) * unit_factor(cu) ** (order - 1)     # harness value is in molar, second
+    cu_txt = {'molar': 'molar', 'millimolar': 'millimolar', 'mol/m3': '(mol/metre**3)'}[cu]
+    txt = rxn_text(r).rsplit(';', 1)[0] + '; %r' % k
+    if order != 1:
+        txt += '*%s**%d' % (cu_txt, 1 - order)
+    return txt + '/' + tu
+
+
+def rand_units(rng, ns):
+    """how the unit-aware pipeline is driven: a unit per initial concentration, a time unit, the container of c0, output units"""
+    form = rng.choice(['dict', 'dict', 'dict', 'list', 'array'])
+    mixed = rng.random() < 0.8
+    base = rng.choice(CONC_UNITS)
+    return {'conc': [rng.choice(CONC_UNITS) if mixed else base for _ in range(ns)], 'time': rng.choice(TIME_UNITS), 'form': form,
+            'k_conc': rng.choice(['molar', 'millimolar', 'mol/m3']), 'k_time': rng.choice(['second', 'second', 'minute']),
+            'out_conc': rng.choice([None, None, 'millimolar', 'mol/m3']), 'out_time': rng.choice([None, None, 'minute'])}
+
+
 class C06(Property):
     pid = 'C06'
     title = ('integrating the generated ODE system reproduces exact solutions (exp(M t) c0 for first-order networks, closed forms for '
@@ -273,6 +311,10 @@ class C06(Property):
                 y = [0 if rng.random() < 0.4 else _dy(rng, 1, 64, 16) for _ in range(ns)]
             elif r < 0.55:
                 y = [0] * ns
+            elif r < 0.65:                                    # outside the box (a negative entry): no claim of the property, but the
+                y = [_dy(rng, 0, 64, 16) for _ in range(ns)]   # model must still equal the code — the only states on which the
+                j = rng.randrange(ns)                          # upper-bound side of the loop can be the binding one
+                y[j] = _dy(rng, -64, -1, 16)
             else:
                 y = [_dy(rng, 1, 64, 16) for _ in range(ns)]
             out.append(y)
@@ -326,7 +368,7 @@ class C06(Property):
         tout = sorted(float('%.3g' % (tscale * 10 ** rng.uniform(-3, 3))) for _ in range(3))
         tol = rng.choice([1e-6, 1e-8, 1e-9, 1e-10])
         return {'kind': 'linear', 'subs': subs, 'rxns': net.rxns, 'c0': c0, 'tout': tout, 'atol': tol * rng.choice([1, 1e-2]),
-                'rtol': tol, 'integrator': rng.choice([None, 'scipy'])}
+                'rtol': tol, 'integrator': rng.choice([None, 'scipy']), 'units': rand_units(rng, len(subs)) if rng.random() < 0.4 else None}
 
     def _bimol_case(self, rng, tier):
         which = rng.choice(['irrev', 'irrev', 'rev', 'rev', 'dimer'])
@@ -340,7 +382,8 @@ class C06(Property):
         tout = sorted(float('%.3g' % (10 ** rng.uniform(-2.5, 1.2) / rate)) for _ in range(3))
         tol = rng.choice([1e-6, 1e-8, 1e-9, 1e-10])
         return {'kind': 'bimol', 'which': which, 'kf': kf, 'kb': kb, 'major': major, 'minor': minor, 'prod': prod, 'swap': swap,
-                'tout': tout, 'atol': tol * rng.choice([1, 1e-2]), 'rtol': tol, 'integrator': rng.choice([None, 'scipy'])}
+                'tout': tout, 'atol': tol * rng.choice([1, 1e-2]), 'rtol': tol, 'integrator': rng.choice([None, 'scipy']),
+                'units': rand_units(rng, 3) if rng.random() < 0.4 else None}
 
     def _traj_case(self, rng, tier):
         kgen = lambda: rat_json(F(float('%.3g' % (10 ** rng.uniform(-2, 3)))))
@@ -355,7 +398,7 @@ class C06(Property):
         tout = sorted(float('%.3g' % (10 ** rng.uniform(-2, 2) / kmax)) for _ in range(3))
         tol = rng.choice([1e-6, 1e-8, 1e-9])
         return {'kind': 'traj', 'subs': subs, 'rxns': net.rxns, 'c0': c0, 'tout': tout, 'atol': tol, 'rtol': tol,
-                'integrator': rng.choice([None, 'scipy'])}
+                'integrator': rng.choice([None, 'scipy']), 'units': rand_units(rng, len(subs)) if rng.random() < 0.4 else None}
 
     def generate(self, rng, n, tier):
         cases = []
@@ -410,10 +453,16 @@ class C06(Property):
         k = case.get('kind')
         if k == 'linear':
             ks = [float(_fr(r['param'])) for r in case['rxns']]
-            return 'explore:linear:decades=%d' % round(math.log10(max(ks) / min(ks)))
+            return 'explore:linear:decades=%d%s' % (round(math.log10(max(ks) / min(ks))), self._utag(case))
         if k == 'bimol':
-            return 'explore:bimol:' + case['which']
-        return 'explore:%s' % k
+            return 'explore:bimol:' + case['which'] + self._utag(case)
+        return 'explore:%s%s' % (k, self._utag(case))
+
+    def _utag(self, case):
+        un = case.get('units')
+        if not un:
+            return ''
+        return ':units-%s-%s' % (un['form'], 'mixed' if len(set(un['conc'])) > 1 else 'uniform')
 
     def nontrivial(self, case):
         return bool(case.get('rxns')) or case.get('op') == 'upper_conc_bounds' or case.get('kind') == 'bimol'
@@ -550,7 +599,7 @@ class C06(Property):
             return 'a balanced system with compositions got no max_euler_step_cb'
         rng = random.Random(case.get('fseed', 0))
         ns = len(subs)
-        states = [[float(_fr(v)) for v in st] for st in case['states'] if len(st) == ns]
+        states = [[float(_fr(v)) for v in st] for st in case['states'] if len(st) == ns and all(_fr(v) >= 0 for v in st)]
         for _ in range(6):                                      # random float states, several decades, some zeros
             states.append([0.0 if rng.random() < 0.25 else 10 ** rng.uniform(-4, 1.5) for _ in range(ns)])
         for y in states:
@@ -623,30 +672,65 @@ class C06(Property):
         return None
 
     # ---- exploration: the delegated integrator ----------------------------------------------
-    def _integrate(self, case, subs, rxns, c0d, text=None):
-        """text -> from_string -> get_odesys -> integrate; -> (names, tout, yout, rsys) or a failure string"""
+    def _integrate(self, case, subs, rxns, c0d):
+        """text -> from_string -> get_odesys -> integrate; -> (names, tout [s], yout [molar], rsys, cb) or a failure string.
+        With case['units'] the unit-aware pipeline is driven (get_odesys(unit_registry=SI_base_registry), rate constants, initial
+        concentrations and output times carrying units — a unit per entry —, c0 as dict / list / quantity array) and the
+        results are converted back to molar and seconds. `cb(y)` calls max_euler_step_cb on a state given in molar, names order."""
         import numpy as np
         from chempy import ReactionSystem, Substance
         from chempy.kinetics.ode import get_odesys
         comps = {k: OrderedDict((int(e), int(v)) for e, v in comp) for k, comp in subs}
-        text = text or '\n'.join(rxn_text(r) for r in rxns)
-        rsys = ReactionSystem.from_string(text, substance_factory=lambda name: Substance(name, composition=comps[name]))
-        odesys, extra = get_odesys(rsys)
+        un = case.get('units')
         kw = {'atol': case['atol'], 'rtol': case['rtol'], 'nsteps': 50000}
         if case.get('integrator'):
             kw['integrator'] = case['integrator']
-        res = odesys.integrate([0.0] + list(case['tout']), c0d, **kw)
+        factory = lambda name: Substance(name, composition=comps[name])
+        if not un:
+            rsys = ReactionSystem.from_string('\n'.join(rxn_text(r) for r in rxns), substance_factory=factory)
+            odesys, extra = get_odesys(rsys)
+            res = odesys.integrate([0.0] + list(case['tout']), c0d, **kw)
+            xout, yout = np.asarray(res.xout), np.asarray(res.yout)
+            raw_cb = extra['max_euler_step_cb']
+            cb = None if raw_cb is None else (lambda y: float(raw_cb(0, list(y))))
+        else:
+            from chempy.units import SI_base_registry, to_unitless, default_units as u
+            text = '\n'.join(rxn_text_units(r, un['k_conc'], un['k_time']) for r in rxns)
+            rsys = ReactionSystem.from_string(text, substance_factory=factory)
+            kwo = {}
+            if un.get('out_conc'):
+                kwo['output_conc_unit'] = unit_of(un['out_conc'])
+            if un.get('out_time'):
+                kwo['output_time_unit'] = unit_of(un['out_time'])
+            odesys, extra = get_odesys(rsys, unit_registry=SI_base_registry, **kwo)
+            cunit = dict(zip([k for k, _ in subs], un['conc']))
+
+            def pack(yd):
+                q = OrderedDict((k, (yd[k] / unit_factor(cunit[k])) * unit_of(cunit[k])) for k in yd)
+                if un['form'] == 'dict':
+                    return q
+                if un['form'] == 'list':
+                    return [q[k] for k in odesys.names]
+                return rsys.as_per_substance_array(q, unit=unit_of(un['conc'][0]))
+            tu = un['time']
+            tq = np.array([0.0] + [t / unit_factor(tu) for t in case['tout']]) * unit_of(tu)
+            res = odesys.integrate(tq, pack(c0d), **kw)
+            xout = np.asarray(to_unitless(res.xout, u.second), dtype=float)
+            yout = np.asarray(to_unitless(res.yout, u.molar), dtype=float)
+            raw_cb = extra['max_euler_step_cb']
+            # SI_base_registry: the internal time unit is the second, so the returned (unitless) step is in seconds
+            cb = None if raw_cb is None else (lambda y: float(raw_cb(0 * unit_of(tu), pack(dict(zip(odesys.names, y))))))
         if not res.info.get('success', False):
             return 'integration reported failure: %r' % {k: v for k, v in res.info.items() if not k.startswith('internal')}
         names = list(odesys.names)
         if sorted(names) != sorted(comps):
             return 'odesys.names %r differ from the substances of the text %r' % (names, sorted(comps))
-        xout, yout = np.asarray(res.xout), np.asarray(res.yout)
-        if xout.shape != (len(case['tout']) + 1,) or not np.allclose(xout[1:], case['tout'], rtol=1e-12, atol=0):
+        if xout.shape != (len(case['tout']) + 1,) or not np.allclose(xout[1:], case['tout'], rtol=1e-11, atol=0):
             return 'output times %r are not the requested ones %r' % (xout.tolist(), case['tout'])
-        if list(yout[0]) != [c0d[k] for k in names]:
-            return 'first output row %r is not the initial state' % (yout[0].tolist(),)
-        return names, xout, yout, rsys, extra
+        want0 = np.array([c0d[k] for k in names])
+        if yout.shape != (len(case['tout']) + 1, len(names)) or not np.allclose(yout[0], want0, rtol=1e-11, atol=0):
+            return 'first output row %r is not the initial state %r' % (yout[0].tolist(), want0.tolist())
+        return names, xout, yout, rsys, cb
 
     def _admissible(self, case, subs, names, yout, c0d):
         """concentrations >= -tol, <= elemental bound (1 + tol); element totals and charge kept"""
@@ -691,7 +775,7 @@ class C06(Property):
         r = self._integrate(case, subs, rxns, c0d)
         if isinstance(r, str):
             return r
-        names, xout, yout, rsys, extra = r
+        names, xout, yout, rsys, cb = r
         M = first_order_M(names, rxns)
         c0 = [c0d[k] for k in names]
         tol = ERR_FACTOR * (case['atol'] + case['rtol'] * max(c0))
@@ -705,18 +789,17 @@ class C06(Property):
         f = self._admissible(case, subs, names, yout, c0d)
         if f:
             return f
-        return self._euler_along(subs, rxns, names, yout, extra)
+        return self._euler_along(subs, rxns, names, yout, cb)
 
-    def _euler_along(self, subs, rxns, names, yout, extra):
-        """the Euler-step claim at states taken from the trajectory"""
-        cb = extra['max_euler_step_cb']
+    def _euler_along(self, subs, rxns, names, yout, cb):
+        """the Euler-step claim at states taken from the trajectory (through the same — possibly unit-carrying — entry point)"""
         if cb is None:
             return 'a balanced system with compositions got no max_euler_step_cb'
         order = {k: i for i, k in enumerate(names)}
         subs_o = sorted(subs, key=lambda s: order[s[0]])
         for row in yout:
             y = [max(float(v), 0.0) for v in row]
-            h = float(cb(0, y))
+            h = cb(y)
             f, mag = indep_rhs(subs_o, rxns, y)
             ub = indep_bounds(subs_o, y)
             if not (0 <= h <= 1):
@@ -754,20 +837,24 @@ class C06(Property):
         from chempy.kinetics import integrated
         which = case['which']
         A, B = ('B', 'A') if case['swap'] else ('A', 'B')        # A is the abundant one
+        mk = lambda reac, prod, k: {'reac': reac, 'prod': prod, 'inact_reac': [], 'inact_prod': [], 'param': rat_json(F(k))}
         if which == 'dimer':
             subs = [['A', [[1, 1]]], ['P', [[1, 2]]]]
-            text = '2 A -> P; %s' % fmt_k(case['kf'])
-            c0d = {'A': case['major'], 'P': case['prod']}
+            rxns = [mk([['A', 2]], [['P', 1]], case['kf'])]
+            c0d = OrderedDict([('A', case['major']), ('P', case['prod'])])
         else:
             subs = [['A', [[1, 1]]], ['B', [[6, 1]]], ['P', [[1, 1], [6, 1]]]]
-            text = 'A + B -> P; %s' % fmt_k(case['kf'])
+            rxns = [mk([['A', 1], ['B', 1]], [['P', 1]], case['kf'])]
             if which == 'rev':
-                text += '\nP -> A + B; %s' % fmt_k(case['kb'])
-            c0d = {A: case['major'], B: case['minor'], 'P': case['prod']}
-        r = self._integrate(case, subs, None, c0d, text=text)
+                rxns.append(mk([['P', 1]], [['A', 1], ['B', 1]], case['kb']))
+            c0d = OrderedDict([(A, case['major']), (B, case['minor']), ('P', case['prod'])])
+        text = ' / '.join(rxn_text(r) for r in rxns)
+        if case.get('units') and which == 'dimer':
+            case = dict(case, units=dict(case['units'], conc=case['units']['conc'][:2]))
+        r = self._integrate(case, subs, rxns, c0d)
         if isinstance(r, str):
             return r
-        names, xout, yout, rsys, extra = r
+        names, xout, yout, rsys, cb = r
         scale = max(c0d.values())
         tol = ERR_FACTOR * (case['atol'] + case['rtol'] * scale)
         for t, row in zip(xout[1:], yout[1:]):
@@ -781,7 +868,7 @@ class C06(Property):
                 self.ratios.append(abs(got[k] - want[k]) * ERR_FACTOR / tol)
                 if abs(got[k] - want[k]) > tol:
                     return ('integrated %s(t=%g) = %r, exact solution %r (|diff| %.3g > %.3g) [%s]'
-                            % (k, t, got[k], want[k], abs(got[k] - want[k]), tol, text.replace('\n', ' / ')))
+                            % (k, t, got[k], want[k], abs(got[k] - want[k]), tol, text))
             # the library's own closed form (C17) against the same run
             if which == 'irrev':
                 cf = integrated.binary_irrev(float(t), case['kf'], case['prod'], case['major'], case['minor'])
@@ -794,8 +881,10 @@ class C06(Property):
                     return 'integrated A(t=%g) = %r, dimerization_irrev gives %r' % (t, got['A'], a)
             if cf is not None and abs(got['P'] - cf) > tol + 1e-9 * scale:
                 return 'integrated P(t=%g) = %r, chempy.kinetics.integrated.binary_%s gives %r' % (t, got['P'], which, cf)
-        rx = None
-        return self._admissible(case, subs, names, yout, c0d)
+        f = self._admissible(case, subs, names, yout, c0d)
+        if f:
+            return f
+        return self._euler_along(subs, rxns, names, yout, cb)
 
     def _oracle_traj(self, case):
         subs, rxns = case['subs'], case['rxns']
@@ -803,11 +892,11 @@ class C06(Property):
         r = self._integrate(case, subs, rxns, c0d)
         if isinstance(r, str):
             return r
-        names, xout, yout, rsys, extra = r
+        names, xout, yout, rsys, cb = r
         f = self._admissible(case, subs, names, yout, c0d)
         if f:
             return f
-        return self._euler_along(subs, rxns, names, yout, extra)
+        return self._euler_along(subs, rxns, names, yout, cb)
 
     def known_key(self, case, failure):
         return None
